@@ -93,7 +93,6 @@ pub fn record_distance(constant: f64, rows: usize) {
         assert!(constant == ST.exp_constant, "constant = constant sites among the k-mers that pass the frequency threshold");
         assert!(rows == ST.exp_rows, "rows compared = k-mers that pass the frequency threshold and are not constant");
     }
-    kani::cover!(true, "pairwise computation reached");
     kani::assume(false);
 }
 pub fn dict_provider(on: bool) { unsafe { ST.provider = on; } }
